@@ -26,8 +26,9 @@ def run(repo, rep):
     mirror_families(repo, rep, "C12-b", {('scheduler', '', 'options'): 'allocator options handed to allocate_tensors'})
     rule_extents(repo, rep, "C12-a")
     sw = repo.mod("stats_writer")
-    txt = sw.src
-    rep.check("nng.memory_used.get(mem_area, 0)" in txt and re.search(r"nng\.memory_used,", txt) is not None, "C12-a", "ethosu/vela/stats_writer.py", "summary CSV and console print nng.memory_used", "")
+    got_get = any(isinstance(n_, ast.Call) and norm(n_.func) == "nng.memory_used.get" for n_ in ast.walk(sw.tree))
+    got_arg = any(isinstance(n_, ast.Call) and any(norm(a_) == "nng.memory_used" for a_ in list(n_.args) + [k_.value for k_ in n_.keywords]) for n_ in ast.walk(sw.tree))
+    rep.check(got_get and got_arg, "C12-a", "ethosu/vela/stats_writer.py", "summary CSV and console print nng.memory_used", "")
     rule_alignment(repo, rep)
     rule_metadata(repo, rep)
     rule_fuse(repo, rep)
